@@ -900,6 +900,44 @@ func c15QueueExit(c *engine.Ctx, rule string, m *mqFacts) {
 					}
 				}
 			}
+			// the exit steps may also be separate defers (run last-registered-first): the release must still come first
+			if shutF := c.P.Field("messagequeue", "MessageQueue", "onShutdown"); shutF != nil {
+				relIdx, annIdx, k := -1, -1, 0
+				var annPos token.Pos
+				for _, in := range root.Blocks[0].Instrs {
+					d, isD := in.(*ssa.Defer)
+					if !isD {
+						continue
+					}
+					k++
+					if d.Call.IsInvoke() && d.Call.Method.Name() == "ReleasePeerMemory" {
+						relIdx = k
+					}
+					if !d.Call.IsInvoke() && d.Call.StaticCallee() == nil && fieldReadOf(d.Call.Value) == shutF {
+						annIdx, annPos = k, d.Pos()
+					}
+					if fn := resolveFuncValue(d.Call.Value); fn != nil && fn.Blocks != nil {
+						engine.Instrs(fn, func(in2 ssa.Instruction) {
+							cc, ok := in2.(*ssa.Call)
+							if !ok {
+								return
+							}
+							if cc.Call.IsInvoke() && cc.Call.Method.Name() == "ReleasePeerMemory" && relIdx < 0 {
+								relIdx = k
+							}
+							if !cc.Call.IsInvoke() && cc.Call.StaticCallee() == nil && fieldReadOf(cc.Call.Value) == shutF && annIdx < 0 {
+								annIdx, annPos = k, cc.Pos()
+							}
+						})
+					}
+				}
+				if relIdx > 0 && annIdx > 0 && relIdx != annIdx {
+					ok2 = true
+					c.Decide(rule, key+"|release-before-announcing-exit", annPos, relIdx > annIdx,
+						"the peer's memory is released (deferred later, so run earlier) before the queue tells its owner that it has ended",
+						"the deferred exit steps run in the wrong order (defers run last-registered-first): the queue tells its owner it has ended before releasing the peer's memory, so a successor queue's reservations can be wiped by the peer-wide release")
+				}
+			}
 			c.Decide(rule, key, root.Pos(), ok2, "deferred ReleasePeerMemory at goroutine entry covers every exit", why)
 		})
 	}
